@@ -1131,6 +1131,89 @@ def stream_cross_theory(ctx, impl, keywords, pairs, n):
     impl.clear_memo()
 
 
+def stream_extend_theory(ctx, impl, keywords, thy_names, rounds, per_round):
+    """History independence when the CURRENT theory object is extended in place (the user adds a
+    definition): print a batch of terms, extend `theory.thy` with a new constant (unchecked_extend, same
+    object), print the same terms again WITHOUT touching the memo table.  The new constant is named
+    like a bound name suggestion of some of the terms / like the variant the printer would choose
+    (<name>1) / like a free variable of some terms (those terms leave the domain: a free variable
+    shadowed by a constant is the known finding) / like nothing in the batch.  After the extension each
+    text must be the text a fresh memo table gives and must parse back to the term.  The kernel has no
+    API to REMOVE a constant; loading a theory again (a new, smaller theory object) is covered by
+    stream_cross_theory."""
+    from harness.props import c07_gen as G
+    from kernel import extension
+    for thy_name in thy_names:
+        rng = ctx.rng("extend/" + thy_name)
+        for rnd in range(rounds):
+            impl.load(thy_name)             # a fresh theory object: extensions of earlier rounds are gone
+            sig = G.Sig(ctx.repo, thy_name, impl.api_parse_type)
+            oracle = Oracle(ctx, impl, sig, keywords)
+            forbidden = lambda nm: nm in keywords or nm in sig.consts   # noqa
+            cases, tries = [], 0
+            while len(cases) < per_round and tries < 6 * per_round:
+                tries += 1
+                names = G.Names(rng, forbidden)
+                gen = G.TermGen(rng, sig, names)
+                T = gen.rand_type(1) if rng.random() < 0.4 else G.BoolType
+                t = gen.gen(T, rng.randint(2, 4), [])
+                if "Abs" not in G.dump_term(t):
+                    continue
+                G.check_welltyped(sig, t)
+                cases.append((t, (rng.random() < 0.5, None, False)))
+            bound, free = [], []
+            for t, _ in cases:
+                vars, svars = free_names(t)
+                free += list(vars) + list(svars)
+                bound += [nm for nm in all_names(t) if nm not in vars and nm not in svars]
+            mode = rnd % 4
+            pool = {0: sorted(set(bound)), 1: sorted(set(nm + "1" for nm in bound)), 2: sorted(set(free)), 3: ["zzfresh"]}[mode]
+            pool = [nm for nm in pool if re.fullmatch(r"[A-Za-z_][A-Za-z_0-9]*", nm) and not forbidden(nm)]
+            if not pool:
+                continue
+            new_name = rng.choice(pool)
+            new_T = rng.choice([G.TFun(G.BoolType, G.BoolType), G.TVar("a"), G.BoolType, G.TFun(G.TVar("a"), G.TVar("a"))])
+
+            def phase(fresh):
+                out = []
+                for t, setting in cases:
+                    if fresh:
+                        impl.clear_memo()
+                    vars, svars = free_names(t)
+                    impl.set_context(vars, svars)
+                    try:
+                        text = impl.print_term(t, setting)
+                    except Exception as e:  # noqa
+                        text = "print-raises:" + type(e).__name__
+                    try:
+                        ok = G.term_eq(t, impl.quiet(impl.api_parse_term, text))
+                    except Exception:  # noqa
+                        ok = False
+                    out.append((text, ok))
+                return out
+            impl.clear_memo()
+            before = phase(False)
+            impl.theory.thy.unchecked_extend([extension.Constant(new_name, new_T)])     # the SAME theory object, extended
+            after = phase(False)
+            fresh = phase(True)
+            for idx, (t, setting) in enumerate(cases):
+                vars, svars = free_names(t)
+                ctx.case(("extend", thy_name, new_name, G.dump_term(t)), nontrivial=True)
+                ctx.count("extend:%s" % ["bound-name", "variant-name", "free-name", "unrelated"][mode])
+                if new_name in vars or new_name in svars:
+                    continue        # the term now has a free variable shadowed by a constant (known finding class)
+                if not before[idx][1] or not fresh[idx][1]:
+                    continue        # the plain round trip fails: reported by the term streams
+                if after[idx][0] != fresh[idx][0] or not after[idx][1]:
+                    ctx.violation("memo-extend-history:%s:%s:%s" % (thy_name, new_name, G.dump_term(t)),
+                                  "theory %s extended in place by the constant %s :: %s: %s printed %r before; after the extension the memo gives "
+                                  "%r (parses back: %s), a fresh memo table gives %r" % (
+                                      thy_name, new_name, G.dump_type(new_T), G.dump_term(t)[:300], before[idx][0], after[idx][0], after[idx][1], fresh[idx][0]),
+                                  {"kind": "extend", "theory": thy_name, "term": G.term_to_json(t), "setting": list(setting),
+                                   "new_const": new_name, "new_type": G.type_to_json(new_T)})
+    impl.clear_memo()
+
+
 def stream_many_annotations(ctx, impl, sig, oracle):
     """Large terms in which every conjunct needs its own type annotation (the annotation loop of
     infer_printed_type runs once per annotation)."""
@@ -1261,6 +1344,8 @@ def run(ctx):
         ctx.log("theory %s done: %s" % (thy_name, " ".join("%s=%.1fs" % (marks[i][0], marks[i][1] - marks[i - 1][1]) for i in range(1, len(marks)))))
     stream_cross_theory(ctx, impl, keywords, CROSS_THEORIES if ctx.tier == "quick" else CROSS_THEORIES + CROSS_THEORIES_MORE,
                         ctx.scale(60, 400))
+    stream_extend_theory(ctx, impl, keywords, ["nat", "set", "hoare"] if ctx.tier == "quick" else ["nat", "set", "hoare", "real", "list", "function"],
+                         ctx.scale(8, 40), ctx.scale(12, 20))
     if ctx.tier == "thorough":
         # every library file in its own theory
         done = {t for t, _ in theories}
@@ -1336,6 +1421,24 @@ def replay(ctx, rp):
         for k, v in texts.items():
             print("%s: %r" % (k, v))
         return len(set(texts.values())) != 1 or "error" in texts or oracle.roundtrip(t, setting)[0] is not None
+    if kind == "extend":
+        from kernel import extension
+        t = G.term_from_json(r["term"])
+        setting = tuple(r["setting"])
+        vars, svars = free_names(t)
+        impl.clear_memo()
+        impl.set_context(vars, svars)
+        before = impl.print_term(t, setting)
+        impl.theory.thy.unchecked_extend([extension.Constant(r["new_const"], G.type_from_json(r["new_type"]))])
+        after = impl.print_term(t, setting)
+        try:
+            ok = G.term_eq(t, impl.quiet(impl.api_parse_term, after))
+        except Exception as e:  # noqa
+            ok = False
+        impl.clear_memo()
+        fresh = impl.print_term(t, setting)
+        print("before: %r\nafter extending the theory by %s: %r (parses back: %s)\nfresh memo: %r" % (before, r["new_const"], after, ok, fresh))
+        return after != fresh or not ok
     if kind == "cross":
         t = G.term_from_json(r["term"])
         setting = tuple(r["setting"])
@@ -1405,7 +1508,7 @@ MANIFEST = {
             "TextOK, TypeTextOK, SeqOK, SeqTextOK, InstOK) that are discharged by `decide` for the regenerated tables on every run. Every model is tied "
             "to the real code on every run: model text == real text (terms, types, sequents), real line-broken texts matched against printTextW by the "
             "driver, model lexer == Lark's real token stream, model parsers == parse_term / parse_type / parse_thm / parse_inst, NameOK checked by the "
-            "driver. The property itself (12 settings, memo histories within and across theories, proof items) is checked by round trip on type-directed "
+            "driver. The property itself (12 settings, memo histories within one theory, across theory changes and across IN-PLACE extensions of the current theory object by a constant named like a bound name / its printed variant / a free variable / nothing, proof items) is checked by round trip on type-directed "
             "generated terms and all library statements.",
     "note": "Trusted: Lean kernel, propext/Classical.choice/Quot.sound; the harness generator, its own alpha-equality and type checker; the regex/ast reader "
             "of grammar, operator.py and pprint.py; Lark's LALR tables. NOT covered by a theorem (run-time round trip / correspondence only): WHICH subterms "
